@@ -25,6 +25,15 @@ def tplRecordUnmarshalOpts (addr : Bytes) (fuel : Nat) : FnSem :=
 def setHeaderUnmarshal (addr : Bytes) (fuel : Nat) : FnSem := Gen.IpfixIR.setHeaderUnmarshal.sem addr [] fuel
 def msgHeaderUnmarshal (addr : Bytes) (fuel : Nat) : FnSem := Gen.IpfixIR.msgHeaderUnmarshal.sem addr [] fuel
 def msgHeaderValidate (addr : Bytes) (fuel : Nat) : FnSem := Gen.IpfixIR.msgHeaderValidate.sem addr [] fuel
+def decodeSet (addr : Bytes) (fuel : Nat) : FnSem :=
+  Gen.IpfixIR.decodeSet.sem addr
+    [("setHeaderUnmarshal", setHeaderUnmarshal addr fuel), ("minRecordLen", minRecordLen addr fuel),
+     ("tplRecordUnmarshal", tplRecordUnmarshal addr fuel), ("tplRecordUnmarshalOpts", tplRecordUnmarshalOpts addr fuel),
+     ("decodeData", decodeData addr fuel)] fuel
+def decode (addr : Bytes) (fuel : Nat) : FnSem :=
+  Gen.IpfixIR.decode.sem addr
+    [("msgHeaderUnmarshal", msgHeaderUnmarshal addr fuel), ("msgHeaderValidate", msgHeaderValidate addr fuel),
+     ("decodeSet", decodeSet addr fuel)] fuel
 
 /-! ## how the model's results read as Go result lists -/
 
@@ -38,5 +47,16 @@ def lenResult : Except Err Nat → List V
 def recResult : Except Err Record → List V
   | .ok fs => [.drec fs, .nil]
   | .error e => [.nil, .err ⟨Ipfix.nonfatalErr e, e⟩]
+
+/-- Go's `err` slot: `nil`, or the error — wrapped in `nonfatalError{…}` exactly for the classes of `Ipfix.nonfatalErr` -/
+def errV : Option Err → V
+  | none => .nil
+  | some e => .err ⟨Ipfix.nonfatalErr e, e⟩
+
+/-- `(*Message, error)` of `Decode`: the message (AgentID = the exporter address, header, data sets) with the collected
+non-fatal errors (`combineErrors` only renders them), or `nil` and the fatal error -/
+def decodeResult (addr : Bytes) : Ipfix.Result → List V
+  | .ok (h, recs, errs) => [.msg addr (MHdr.ofHdr h) recs, .errs (errs.map fun e => ⟨true, e⟩)]
+  | .error e => [.nil, .err ⟨false, e⟩]
 
 end Vflow.IpfixProg
